@@ -182,23 +182,38 @@ func main() {
 						c.Violation(keys("nested-null-refused"), fmt.Sprintf("%s: Encode refuses a NULL element: %v", desc, err), desc)
 						continue
 					}
-					dest := reflect.New(tg.t)
-					if pf, ok := tg.fill(); ok && !containsMap(tg.t, 0) {
-						dest.Elem().Set(reflect.ValueOf(gen.Clone(pf.Interface())))
+					// destinations: one that already holds a full non-zero value, and - for slices - one of length 0
+					// whose spare capacity still holds the previous row (dest = dest[:0] between rows)
+					for variant := 0; variant < 2; variant++ {
+						dest := reflect.New(tg.t)
+						how := "a destination holding a previous value"
+						if pf, ok := tg.fill(); ok && !containsMap(tg.t, 0) {
+							dest.Elem().Set(reflect.ValueOf(gen.Clone(pf.Interface())))
+							if variant == 1 {
+								if tg.t.Kind() != reflect.Slice || dest.Elem().Len() == 0 {
+									continue
+								}
+								dest.Elem().Set(dest.Elem().Slice(0, 0))
+								how = "an emptied slice whose capacity still holds the previous value"
+							}
+						} else if variant == 1 {
+							continue
+						}
+						atomic.AddInt64(&evals, 1)
+						wasNull, err, pv, site := cql.Decode(codec, enc, dest.Interface(), v)
+						if pv != nil {
+							k := keys("nested-null-panic")
+							k["site"] = site
+							c.Violation(k, fmt.Sprintf("%s: Decode panics: %v", desc, pv), desc)
+							break
+						}
+						got := cql.Abstract(tg.dt, dest.Elem())
+						if err != nil || wasNull || got.Key() != a.Key() {
+							c.Violation(keys("nested-null-lost"), fmt.Sprintf("%s: encoded %x, decoded into %s: %s (wasNull=%v err=%v)", desc, enc, how, got, wasNull, err), desc)
+							break
+						}
+						atomic.AddInt64(&validated, 1)
 					}
-					wasNull, err, pv, site := cql.Decode(codec, enc, dest.Interface(), v)
-					if pv != nil {
-						k := keys("nested-null-panic")
-						k["site"] = site
-						c.Violation(k, fmt.Sprintf("%s: Decode panics: %v", desc, pv), desc)
-						continue
-					}
-					got := cql.Abstract(tg.dt, dest.Elem())
-					if err != nil || wasNull || got.Key() != a.Key() {
-						c.Violation(keys("nested-null-lost"), fmt.Sprintf("%s: encoded %x, decoded %s (wasNull=%v err=%v)", desc, enc, got, wasNull, err), desc)
-						continue
-					}
-					atomic.AddInt64(&validated, 1)
 				}
 			}
 		}
